@@ -1,9 +1,9 @@
 package checks
 
 import (
-	"math"
 	"bytes"
 	"fmt"
+	"math"
 	"os"
 	"reflect"
 	"strings"
